@@ -77,7 +77,7 @@ package bech32
 //@   modifies nothing
 
 //@ func verifyChecksum(hrp, data) (ok)
-//@   ensures#iff ok <==> polyb(cat(hrpx(hrp), old(bytes(data)))) == 1                                 [C09]
+//@   ensures#iff ok <==> polyb(cat(hrpx(hrp), old(bytes(data)))) == 1                                 [C09 C18]
 //@   modifies nothing
 
 //@ func createChecksum(hrp, data) (ret)
@@ -98,9 +98,9 @@ package bech32
 //@   loop 2 invariant -1 <= rangeindex && rangeindex < len(data) && bits < tobits + frombits && 1 <= frombits && frombits <= 8 && 1 <= tobits && tobits <= 8 && maxv == pow2(tobits) - 1 && unchanged(data) && (rg(ret) == 0 || (disjoint(ret, data) && fresh(ret)))
 //@   loop 2 invariant#syms forall j in 0..len(ret) :: 0 <= ret[j] && ret[j] <= maxv                                        [C09 C14]
 //@   loop 2 decreases bits
-//@   ensures#nil err != nil ==> ret == nil                                                                                  [C09 C14]
+//@   ensures#nil err != nil ==> ret == nil                                                                                  [C09 C14 C18]
 //@   ensures#syms err == nil ==> (forall j in 0..len(ret) :: 0 <= ret[j] && ret[j] < pow2(tobits))                          [C09 C14]
-//@   ensures#padding (err == nil && !pad) ==> bits < frombits && and8(shl32(acc, tobits - bits) % 256, maxv) == 0           [C09]
+//@   ensures#padding (err == nil && !pad) ==> bits < frombits && and8(shl32(acc, tobits - bits) % 256, maxv) == 0           [C09 C18]
 //@   fresh ret when len(ret) > 0
 //@   modifies nothing
 
@@ -110,7 +110,7 @@ package bech32
 //@   loop 2 invariant 0 <= $pos && $pos <= len(hrp) && (forall j in 0..$pos :: 33 <= at(hrp, j) && at(hrp, j) <= 126)
 //@   loop 2 decreases len(hrp) - $pos
 //@   loop 3 invariant 0 <= $pos && $pos <= len(s) - pos - 1 && len(data) == $pos && 1 <= pos && pos + 7 <= len(s) && (rg(data) == 0 || fresh(data))
-//@   loop 3 invariant#syms forall j in 0..$pos :: 0 <= data[j] && data[j] < 32                         [C09 C14]
+//@   loop 3 invariant#syms forall j in 0..$pos :: 0 <= data[j] && data[j] < 32                         [C09 C14 C18]
 //@   loop 3 decreases len(s) - $pos
 //@   call fmt.Errorf#1 requires len(arg1) == 2 && typeis(arg1[0], "int") && typeis(arg1[1], "int32")        [C18]
 //@   call fmt.Errorf#2 requires len(arg1) == 0                                                           [C18]
@@ -118,7 +118,7 @@ package bech32
 //@   call fmt.Errorf#4 requires len(arg1) == 2 && typeis(arg1[0], "int") && typeis(arg1[1], "int32")        [C18]
 //@   call fmt.Errorf#5 requires len(arg1) == 2 && typeis(arg1[0], "int") && typeis(arg1[1], "int32")        [C18]
 //@   call fmt.Errorf#6 requires len(arg1) == 0                                                           [C18]
-//@   ensures#nil err != nil ==> hrp == "" && data == nil                                               [C09 C14]
+//@   ensures#nil err != nil ==> hrp == "" && data == nil                                               [C09 C14 C18]
 //@   ensures#ascii err == nil ==> printable(old(s))                                                    [C09 C14 C18]
 //@   ensures#case err == nil ==> (nolower(old(s)) || noupper(old(s)))                                  [C09 C18]
 //@   ensures#hrp err == nil ==> len(hrp) >= 1 && printable(hrp) && hasprefix(old(s), hrp) && len(hrp) + 7 <= len(old(s)) && at(old(s), len(hrp)) == 49   [C09 C18]
@@ -133,7 +133,7 @@ package bech32
 //@   loop 2 decreases len(values) - rangeindex
 //@   loop 3 invariant -1 <= rangeindex && rangeindex < len($ranged) && (forall j in 0..len($ranged) :: 0 <= $ranged[j] && $ranged[j] < 32)
 //@   loop 3 decreases len($ranged) - rangeindex
-//@   call convertBits#1 requires same(arg0, data) && arg1 == 8 && arg2 == 5 && arg3                                     [C09]
-//@   ensures#hrp err == nil ==> len(hrp) >= 1 && printable(hrp) && (nolower(hrp) || noupper(hrp))                       [C09]
+//@   call convertBits#1 requires same(arg0, data) && arg1 == 8 && arg2 == 5 && arg3                                     [C09 C17]
+//@   ensures#hrp err == nil ==> len(hrp) >= 1 && printable(hrp) && (nolower(hrp) || noupper(hrp))                       [C09 C17]
 //@   ensures#nil err != nil ==> s == ""                                                                                [C09]
 //@   modifies nothing
